@@ -552,6 +552,31 @@ func (c *Ctx) squareCase(sc sqCase) {
 		if txShares.Start != 0 || (pfbShares.End > 0 && pfbShares.Start != txShares.End) {
 			fail("C03", "transaction shares do not start the square / pay-for-blob shares do not follow them")
 		}
+		// each of the two compact regions is ONE sequence: its first share starts a sequence, no other share of
+		// it does, and the declared length needs exactly the shares of the region (otherwise some share of the
+		// region is part of no sequence without being padding)
+		for _, reg := range []struct {
+			name string
+			r    share.Range
+		}{{"transaction", txShares}, {"pay-for-blob", pfbShares}} {
+			if reg.r.End <= reg.r.Start || reg.r.End > n {
+				continue
+			}
+			first, ferr := share.NewShare(raw[reg.r.Start])
+			if ferr != nil {
+				continue
+			}
+			okSeq := first.IsSequenceStart()
+			for i := reg.r.Start + 1; i < reg.r.End && okSeq; i++ {
+				if s, e := share.NewShare(raw[i]); e != nil || s.IsSequenceStart() {
+					okSeq = false
+				}
+			}
+			declared := first.SequenceLen()
+			if !okSeq || (declared > 1<<30 || sizeOf(int(declared)) != reg.r.End-reg.r.Start) {
+				fail("C03", fmt.Sprintf("the %d %s shares are not one sequence: declared length %d needs %d shares (or a sequence start is misplaced)", reg.r.End-reg.r.Start, reg.name, declared, sizeOf(int(declared%(1<<30)))))
+			}
+		}
 		padNs, padVer := share.PrimaryReservedPaddingNamespace.Bytes(), uint8(0)
 		pos := max(txShares.End, pfbShares.End)
 		okPad := true
